@@ -346,7 +346,7 @@ package godi
 //@   ensures[C13,C15] singleton_miss_on_a_closed_provider_reports_the_disposed_error: d != nil && d.Lifetime == Singleton && !callret("provider.singletons.Load", 0, 1) ==>
 //@        ncalls("atomic.Load:disposed") == 1 && (callret("atomic.Load:disposed", 0, 0, "int32") != 0 ==> result1 == ErrProviderDisposed)
 //@   ensures[C01,C15] singleton_missing_is_error: d != nil && d.Lifetime == Singleton && !callret("provider.singletons.Load", 0, 1) ==> result0 == nil && result1 != nil
-//@        && typeis(result1, "*ResolutionError") && as(result1, "*ResolutionError").Cause == ErrSingletonNotInitialized
+//@        && (callret("atomic.Load:disposed", 0, 0, "int32") == 0 ==> typeis(result1, "*ResolutionError") && as(result1, "*ResolutionError").Cause == ErrSingletonNotInitialized)
 //@   ensures[C02] scoped_at_most_one_create: d != nil && d.Lifetime == Scoped ==> ncalls("scope.createInstance") <= 1 && ncalls("scope.instancesMu.RLock") == 1 && callarg("scope.instancesMu.RLock", 0, 0) == s
 //@   ensures[C02] scoped_created_for_descriptor: d != nil && d.Lifetime == Scoped && ncalls("scope.createInstance") == 1 ==> callarg("scope.createInstance", 0, 0) == s && callarg("scope.createInstance", 0, 1) == d
 //@        && result0 == callret("scope.createInstance", 0, 0) || result0 == nil
